@@ -8,6 +8,7 @@
                                             derives (least fixed point of the rule equations on string sets)
   regex_language(pattern, sigma, n, flags)  {s in sigma^{<=n} : re.fullmatch(pattern, s)}  (brute force over all strings)
   strings_over(sigma, n)                    all tuples over sigma of length <= n
+  strings_by_bytes(sigma, maxbytes)         all strs over sigma whose encoding has <= maxbytes bytes
 
 A "string" is a tuple of symbols.  `size` maps a symbol to its length (1 by default; the number of UTF-8 bytes when the
 bound is a byte bound).  `selfcheck()` validates every function against a brute-force definition / the shared spec.
@@ -104,6 +105,23 @@ def strings_over(sigma, n):
     for _ in range(n):
         frontier = [s + (a,) for s in frontier for a in sigma]
         out.extend(frontier)
+    return out
+
+
+def strings_by_bytes(sigma, maxbytes, maxchars=None):
+    """All strings (as str) over the characters sigma whose UTF-8 encoding has at most maxbytes bytes."""
+    sizes = {c: len(utf8(c)) for c in set(sigma)}
+    out = []
+
+    def rec(s, used):
+        out.append(s)
+        if maxchars is not None and len(s) >= maxchars:
+            return
+        for c in sorted(sizes):
+            if used + sizes[c] <= maxbytes:
+                rec(s + c, used + sizes[c])
+
+    rec("", 0)
     return out
 
 
@@ -311,6 +329,7 @@ def selfcheck(fast=False):
     L = cfg_language(g, 3, term_lang={"T": {("a",), ("a", "b")}, "U": {()}})
     assert L["S"] == {(), ("a",), ("a", "a"), ("a", "b"), ("a", "a", "a"), ("a", "a", "b"), ("a", "b", "a")}
     assert regex_language("a*b?", "ab", 2) == {"", "a", "b", "aa", "ab"}
+    assert sorted(strings_by_bytes("aé", 3)) == sorted("".join(x) for x in strings_over("aé", 3) if len(encode(x)) <= 3)
     return True
 
 
